@@ -25,7 +25,7 @@ import (
 // and no inserted / replacement node was visited.
 
 type c14Step struct {
-	Ops    []string `json:"ops,omitempty"` // replace delete before after
+	Ops    []string `json:"ops,omitempty"` // replace delete before after (through the cursor); truncate grow append-body (see c14DirectOp)
 	Return bool     `json:"ret"`           // what the callback returns
 }
 
@@ -102,6 +102,61 @@ func newAst(like ast.Node, k int) ast.Node {
 	return nil
 }
 
+// Edits that change the length of a list NOT through the Cursor methods but by assigning to the
+// parent's slice field, as client code does (astutil.Apply reloads the list and its length on every
+// step, so the traversal follows the list as it currently is):
+//
+//	truncate     parent.Name = parent.Name[:Index()+1]           (drop what follows the current element)
+//	grow         parent.Name = append(parent.Name, fresh)          (the list being iterated grows at its end)
+//	append-body  fn.Body.List = append(fn.Body.List, fresh stmt)   (from any node below a function declaration:
+//	             the cursor of a nested node cannot insert into an outer list)
+func c14DirectOp(op string) bool { return op == "truncate" || op == "grow" || op == "append-body" }
+
+func c14Truncate(parent interface{}, name string, idx int) {
+	fv := reflect.Indirect(reflect.ValueOf(parent)).FieldByName(name)
+	if fv.IsValid() && fv.Kind() == reflect.Slice && idx >= 0 && idx < fv.Len() {
+		fv.Set(fv.Slice(0, idx+1))
+	}
+}
+
+func c14Grow(parent interface{}, name string, fresh interface{}) {
+	fv := reflect.Indirect(reflect.ValueOf(parent)).FieldByName(name)
+	if fv.IsValid() && fv.Kind() == reflect.Slice && reflect.TypeOf(fresh).AssignableTo(fv.Type().Elem()) {
+		fv.Set(reflect.Append(fv, reflect.ValueOf(fresh)))
+	}
+}
+
+// the function declaration every node of the file lies in (computed before the run)
+func enclosingFuncsDst(f *dst.File) map[interface{}]*dst.FuncDecl {
+	m := map[interface{}]*dst.FuncDecl{}
+	for _, d := range f.Decls {
+		if fd, ok := d.(*dst.FuncDecl); ok && fd.Body != nil {
+			dst.Inspect(fd, func(n dst.Node) bool {
+				if n != nil {
+					m[n] = fd
+				}
+				return true
+			})
+		}
+	}
+	return m
+}
+
+func enclosingFuncsAst(f *ast.File) map[interface{}]*ast.FuncDecl {
+	m := map[interface{}]*ast.FuncDecl{}
+	for _, d := range f.Decls {
+		if fd, ok := d.(*ast.FuncDecl); ok && fd.Body != nil {
+			ast.Inspect(fd, func(n ast.Node) bool {
+				if n != nil {
+					m[n] = fd
+				}
+				return true
+			})
+		}
+	}
+	return m
+}
+
 func firstBodyDst(f *dst.File) dst.Node {
 	for _, d := range f.Decls {
 		if fd, ok := d.(*dst.FuncDecl); ok && fd.Body != nil {
@@ -123,6 +178,7 @@ func firstBodyAst(f *ast.File) ast.Node {
 func c14RunDst(in c14Input, f *dst.File) (res dst.Node, lg *c14Log, pm string) {
 	lg = &c14Log{visited: map[interface{}]int{}, created: map[interface{}]bool{}, edited: map[interface{}]bool{}, deleted: map[interface{}]bool{}}
 	counter := 0
+	encl := enclosingFuncsDst(f)
 	mk := func(phase string, steps map[string]c14Step) dstutil.ApplyFunc {
 		return func(c *dstutil.Cursor) bool {
 			n := c.Node()
@@ -169,10 +225,30 @@ func c14RunDst(in c14Input, f *dst.File) (res dst.Node, lg *c14Log, pm string) {
 				}
 				c.Replace(lg.rootRepl)
 			}
+			// edits by assignment to the parent's field (nodes added this way are ordinary elements of
+			// the list: they are neither lg.created nor original)
+			for oi, op := range st.Ops {
+				switch op {
+				case "truncate":
+					if c.Index() >= 0 {
+						c14Truncate(c.Parent(), c.Name(), c.Index())
+					}
+				case "grow":
+					if c.Index() >= 0 && n != nil {
+						if nn := newDst(n, j*10+oi); nn != nil {
+							c14Grow(c.Parent(), c.Name(), nn)
+						}
+					}
+				case "append-body":
+					if fd := encl[n]; n != nil && fd != nil {
+						fd.Body.List = append(fd.Body.List, &dst.ExprStmt{X: dst.NewIdent(fmt.Sprintf("ins%d", j*10+oi))})
+					}
+				}
+			}
 			if c.Index() >= 0 && n != nil {
 				for oi, op := range st.Ops {
 					nn := newDst(n, j*10+oi)
-					if nn == nil {
+					if nn == nil || c14DirectOp(op) {
 						continue
 					}
 					if lg.deleted[n] {
@@ -222,6 +298,7 @@ func c14RunDst(in c14Input, f *dst.File) (res dst.Node, lg *c14Log, pm string) {
 func c14RunAst(in c14Input, f *ast.File) (res ast.Node, entries []string, pm string, resultIsRepl bool) {
 	counter := 0
 	var rootRepl ast.Node
+	encl := enclosingFuncsAst(f)
 	mk := func(phase string, steps map[string]c14Step) astutil.ApplyFunc {
 		return func(c *astutil.Cursor) bool {
 			n := c.Node()
@@ -246,10 +323,28 @@ func c14RunAst(in c14Input, f *ast.File) (res ast.Node, entries []string, pm str
 				}
 				c.Replace(rootRepl)
 			}
+			for oi, op := range st.Ops {
+				switch op {
+				case "truncate":
+					if c.Index() >= 0 {
+						c14Truncate(c.Parent(), c.Name(), c.Index())
+					}
+				case "grow":
+					if c.Index() >= 0 && n != nil {
+						if nn := newAst(n, j*10+oi); nn != nil {
+							c14Grow(c.Parent(), c.Name(), nn)
+						}
+					}
+				case "append-body":
+					if fd := encl[n]; n != nil && fd != nil {
+						fd.Body.List = append(fd.Body.List, &ast.ExprStmt{X: ast.NewIdent(fmt.Sprintf("ins%d", j*10+oi))})
+					}
+				}
+			}
 			if c.Index() >= 0 && n != nil {
 				for oi, op := range st.Ops {
 					nn := newAst(n, j*10+oi)
-					if nn == nil {
+					if nn == nil || c14DirectOp(op) {
 						continue
 					}
 					switch op {
@@ -442,8 +537,35 @@ func c14Check(in c14Input) (key, what string) {
 // cannot happen for original nodes here since created nodes are fresh leaves.
 func underCreated(root dst.Node, n dst.Node, created map[interface{}]bool) bool { return false }
 
+const c14DirectSrc = `package a
+
+import "fmt"
+
+var table = []int{1, 2, 3}
+
+func f(x, y int) (r int) {
+	if x > y {
+		fmt.Println(x)
+		return x
+		fmt.Println("dead")
+	}
+	for i := 0; i < y; i++ {
+		r += g(i, table[i])
+	}
+	switch x {
+	case 1, 2:
+		r++
+	default:
+		r--
+	}
+	return r
+}
+
+func g(n, m int) int { return n*2 + m }
+`
+
 func c14Prop(c *Ctx) {
-	c.Res.Rule = "sources: hand corpus + $GOROOT/src sample; per source scripts drawn from the PRNG: no-op, single edits, several edits at one callback (never an insert after a delete), pre=false at some callbacks, post=false at one callback, pre-only and post-only; each run on dstutil.Apply and astutil.Apply; plus the recorded delete-then-insert script; non-trivial = distinct (source, script)"
+	c.Res.Rule = "sources: hand corpus + $GOROOT/src sample; per source scripts drawn from the PRNG: no-op, single edits, several edits at one callback (never an insert after a delete), pre=false at some callbacks, post=false at one callback, pre-only and post-only; each run on dstutil.Apply and astutil.Apply; plus the recorded delete-then-insert script; plus lists truncated / grown by assignment to the parent's slice field and statements appended to the enclosing function body from callbacks on nested nodes (PRNG scripts over the sources, and every callback of one source); non-trivial = distinct (source, script)"
 	srcs := oracleSources(c, c.N(10), 6000)
 	ops := []string{"replace", "delete", "before", "after"}
 	gen := func(src string, mode int) c14Input {
@@ -546,6 +668,79 @@ func c14Prop(c *Ctx) {
 					s2 := in
 					s2.Src = clip(in.Src, 120)
 					c.Res.Samples = append(c.Res.Samples, s2)
+				}
+			}
+		}
+	}
+	// lists whose length a callback changes by assigning to the parent's field (c14DirectOp), alone and
+	// together with cursor edits at other callbacks: scripts drawn from the PRNG over the sources ...
+	direct := []string{"truncate", "grow", "append-body"}
+	for _, src := range srcs {
+		for rep := 0; rep < c.N(3); rep++ {
+			in := c14Input{Src: src, Pre: map[string]c14Step{}, Post: map[string]c14Step{}}
+			ncb := len(src) / 4
+			nsteps := 1 + c.Rng.Intn(6)
+			for s := 0; s < nsteps; s++ {
+				st := c14Step{Return: true, Ops: []string{direct[c.Rng.Intn(3)]}}
+				if c.Rng.Intn(4) == 0 {
+					st.Ops = []string{ops[c.Rng.Intn(4)]}
+				}
+				j := fmt.Sprint(c.Rng.Intn(ncb + 1))
+				if c.Rng.Intn(2) == 0 {
+					in.Pre[j] = st
+				} else {
+					in.Post[j] = st
+				}
+			}
+			switch c.Rng.Intn(6) {
+			case 0:
+				in.NoPost = true
+			case 1:
+				in.NoPre = true
+			case 2:
+				in.Root = "body"
+			}
+			c.Res.Evaluations++
+			b, _ := json.Marshal(in)
+			c.Res.seen(string(b[len(b)/2:]) + fmt.Sprint(len(src), "direct", rep))
+			c.Res.hist("c14-mode", "direct assignment to the list field")
+			if key, what := c14Check(in); key != "" {
+				c.Res.fail(key, what, in)
+			}
+		}
+	}
+	// ... and exhaustively on one source: at every callback on a list element the list is truncated /
+	// grown, at every callback below a function declaration a statement is appended to its body
+	{
+		din := c14Input{Src: c14DirectSrc, Pre: map[string]c14Step{}, Post: map[string]c14Step{}}
+		fset := token.NewFileSet()
+		af, _ := parser.ParseFile(fset, "a.go", din.Src, parser.ParseComments)
+		df, _ := decorator.NewDecorator(fset).DecorateFile(af)
+		_, lg, _ := c14RunDst(din, df)
+		for i, e := range lg.entries {
+			var phase, kind, name, pkind string
+			var idx int
+			fmt.Sscanf(e, "%s %s %s %d %s", &phase, &kind, &name, &idx, &pkind)
+			var todo []string
+			if idx >= 0 {
+				todo = append(todo, "truncate", "grow")
+			}
+			if pkind != "File" && pkind != "GenDecl" && pkind != "nil" {
+				todo = append(todo, "append-body")
+			}
+			for _, op := range todo {
+				in := c14Input{Src: din.Src, Pre: map[string]c14Step{}, Post: map[string]c14Step{}}
+				st := c14Step{Return: true, Ops: []string{op}}
+				if phase == "pre" {
+					in.Pre[fmt.Sprint(i)] = st
+				} else {
+					in.Post[fmt.Sprint(i)] = st
+				}
+				c.Res.Evaluations++
+				c.Res.seen(fmt.Sprint("direct-exhaustive", i, op))
+				c.Res.hist("c14-mode", "direct assignment, every callback: "+op)
+				if key, what := c14Check(in); key != "" {
+					c.Res.fail(key, what, in)
 				}
 			}
 		}
